@@ -58,6 +58,10 @@ type state struct {
 	eventsNotifyCount   prometheus.Counter
 	eventsFinishedCount prometheus.Counter
 	xorTreeRepair       *xorTreeRepair
+	// treeMutex serializes the DB transactions that update the in-memory XOR/IBLT trees, up to and including the reload after a rollback.
+	// The DB releases its write lock before the rollback callback is invoked, without this mutex another write could persist a leaf
+	// derived from trees that still contain the rolled-back transaction.
+	treeMutex sync.Mutex
 }
 
 func (s *state) Migrate() error {
@@ -170,6 +174,9 @@ func (s *state) Add(ctx context.Context, transaction Transaction, payload []byte
 	}
 	verifhook.Point("dag.add.verified", transaction.Ref())
 
+	s.treeMutex.Lock()
+	unlockTrees := sync.OnceFunc(s.treeMutex.Unlock)
+	defer unlockTrees() // after rollback + reload, or when the write could not be started
 	return s.db.Write(ctx, func(tx stoabs.WriteTx) error {
 		// TX already present on DAG, nothing to do
 		// We need to do this check again, because a concurrent call could've added the TX (e.g. we got it from another peer).
@@ -211,6 +218,7 @@ func (s *state) Add(ctx context.Context, transaction Transaction, payload []byte
 		// do not use ctx: the rollback may be caused by ctx being cancelled/expired, the reload must happen regardless
 		s.loadState(context.Background())
 	}), stoabs.AfterCommit(func() {
+		unlockTrees() // committed: release before notifying, receivers may add transactions themselves
 		verifhook.Point("dag.add.committed", transaction.Ref(), txAdded)
 		if txAdded {
 			s.notify(txEvent)
